@@ -66,17 +66,17 @@ func (m *Majority) Spec_drawResolver(params *MajorityHeuristicParams) DrawResolv
 
 func (m *Majority) Spec_Evaluate(dm *model.DecisionMakingParams) *model.AlternativesRanking {
 	params := dm.MethodParameters.(MajorityHeuristicParams)
-	criteriaWithWeights := dm.Criteria.ZipWithWeights(&params.Weights)
+	criteriaWithWeights := dm.Criteria.Spec_ZipWithWeights(&params.Weights)
 	generator := m.generator(params.RandomSeed)
-	current, considered := limited_rationality.GetAlternativesSearchOrder(dm, &params, generator)
+	current, considered := limited_rationality.Spec_GetAlternativesSearchOrder(dm, &params, generator)
 	var sameBuffer []model.AlternativeResult
 	var worseThanCurrent [][]model.AlternativeResult
 	var currentEvaluation model.Weight = 0
-	drawResolver := m.drawResolver(&params)
+	drawResolver := m.Spec_drawResolver(&params)
 	for _, another := range considered {
-		s1, s2 := compare(criteriaWithWeights, &current, &another)
+		s1, s2 := Spec_compare(criteriaWithWeights, &current, &another)
 		worseThanCurrent, sameBuffer, current, currentEvaluation =
-			m.takeBetter(s1, s2, sameBuffer, another, current, worseThanCurrent, drawResolver, generator)
+			m.Spec_takeBetter(s1, s2, sameBuffer, another, current, worseThanCurrent, drawResolver, generator)
 	}
 	sameBuffer = append(sameBuffer, model.AlternativeResult{
 		Alternative: current,
@@ -85,7 +85,7 @@ func (m *Majority) Spec_Evaluate(dm *model.DecisionMakingParams) *model.Alternat
 		},
 	})
 	worseThanCurrent = append(worseThanCurrent, sameBuffer)
-	return prepareRanking(worseThanCurrent)
+	return Spec_prepareRanking(worseThanCurrent)
 }
 
 func Spec_prepareRanking(ranking [][]model.AlternativeResult) *model.AlternativesRanking {
@@ -109,7 +109,7 @@ func Spec_prepareRanking(ranking [][]model.AlternativeResult) *model.Alternative
 		}
 		worseOneLevelThanCurrent = sameAlternativesId
 	}
-	result.ReverseOrder()
+	result.Spec_ReverseOrder()
 	return &result
 }
 
@@ -120,18 +120,18 @@ func (m *Majority) Spec_takeBetter(s1, s2 model.Weight, sameBuffer []model.Alter
 	generator utils.ValueGenerator,
 ) ([][]model.AlternativeResult, []model.AlternativeResult, model.AlternativeWithCriteria, model.Weight) {
 	currentEvaluation := s1
-	if utils.FloatsAreEqual(s1, s2, eps) {
+	if utils.Spec_FloatsAreEqual(s1, s2, eps) {
 		resolution := resolver.Resolve(s1, s2, sameBuffer, worseThanCurrent, current, another, generator)
 		current = resolution.current
 		worseThanCurrent = resolution.worseThanCurrent
 		sameBuffer = resolution.sameBuffer
 	} else if s2 < s1 {
-		worseThanCurrent = m.currentWinnerResolver.Resolve(
+		worseThanCurrent = m.currentWinnerResolver.Spec_Resolve(
 			s1, s2, sameBuffer, worseThanCurrent, current, another, generator,
 		).worseThanCurrent
 	} else {
 		currentEvaluation = s2
-		resolution := m.newerIsWinnerResolver.Resolve(
+		resolution := m.newerIsWinnerResolver.Spec_Resolve(
 			s1, s2, sameBuffer, worseThanCurrent, current, another, generator,
 		)
 		current = resolution.current
@@ -145,9 +145,9 @@ func Spec_compare(criteriaWithWeights *model.WeightedCriteria, a1, a2 *model.Alt
 	a1Score := 0.0
 	a2Score := 0.0
 	for _, criterion := range *criteriaWithWeights {
-		v1 := a1.CriterionValue(&criterion.Criterion)
-		v2 := a2.CriterionValue(&criterion.Criterion)
-		if utils.FloatsAreEqual(v1, v2, eps) {
+		v1 := a1.Spec_CriterionValue(&criterion.Criterion)
+		v2 := a2.Spec_CriterionValue(&criterion.Criterion)
+		if utils.Spec_FloatsAreEqual(v1, v2, eps) {
 			continue
 		} else if v1 > v2 {
 			a1Score += criterion.Weight
@@ -160,6 +160,6 @@ func Spec_compare(criteriaWithWeights *model.WeightedCriteria, a1, a2 *model.Alt
 
 func (m *Majority) Spec_ParseParams(dm *model.DecisionMaker) interface{} {
 	var params MajorityHeuristicParams
-	utils.DecodeToStruct(dm.MethodParameters, &params)
+	utils.Spec_DecodeToStruct(dm.MethodParameters, &params)
 	return params
 }
